@@ -30,7 +30,7 @@ var cbAlphabet = []rune{
 	0xa7, 0x2603, 0xe000, // unconstrained
 }
 
-var cbCombs = [][]rune{nil, {}, {0x301}, {0x300, 0x302}, {0x20dd}}
+var cbCombs = [][]rune{nil, {}, {0x301}, {0x300, 0x302}, {0x20dd}, {0xfe0f}, {0x301, 0xfe0f}}
 
 type cbDriver struct {
 	tw         *trace.Writer
@@ -139,7 +139,19 @@ func (d *cbDriver) random(rng *rand.Rand, nops int) {
 	for i := 0; i < nops; i++ {
 		w, h := d.cb.Size()
 		x, y := rng.Intn(w+3)-1, rng.Intn(h+3)-1
-		switch k := rng.Intn(23); {
+		switch k := rng.Intn(24); {
+		case k == 23:
+			// the same Fill before and after a Resize that adds cells: the new cells are filled as well
+			r := []rune{'x', 0x4e16, '.', 0x301}[rng.Intn(4)]
+			st := tcx.RandStyle(rng, true, false)
+			d.fill(r, st)
+			d.simple("Resize", w+1+rng.Intn(2), h+rng.Intn(2), false)
+			d.fill(r, st)
+			if rng.Intn(2) == 0 { // and through an empty buffer
+				d.simple("Resize", 0, 0, false)
+				d.simple("Resize", 1+rng.Intn(3), 1+rng.Intn(2), false)
+				d.fill(r, st)
+			}
 		case k == 22:
 			// every cell clean, a wide rune in the last column of a line, every cell clean again, then that cell
 			// changes: nothing but it (and the columns the wide rune covered, had there been any) may turn dirty
